@@ -127,6 +127,9 @@ class SmartSyncState(SyncState):
     def smart_sync_oid(self, remote_oid) -> SyncEntry:
         ent = self.lookup_oid(REMOTE, remote_oid)
         if ent:
+            if not ent[REMOTE].path:
+                # events of id-style providers carry no path; it is normally filled in by change()
+                self.unconditionally_get_latest(ent, REMOTE)
             self._smart_sync_ent(ent)
         return ent
 
